@@ -37,6 +37,8 @@ private:
     QXmppTask<void> authenticate(const QString &encryption, const QMultiHash<QString, QByteArray> &keyIds);
     QXmppTask<void> distrust(const QString &encryption, const QMultiHash<QString, QByteArray> &keyIds);
 
+    QXmppTask<void> removePostponedTrustDecisions(const QString &encryption, const QList<QByteArray> &senderKeyIds, const QList<QString> &senderJids);
+
     QXmppTask<void> distrustAutomaticallyTrustedKeys(const QString &encryption, const QList<QString> &keyOwnerJids);
     QXmppTask<void> makePostponedTrustDecisions(const QString &encryption, const QList<QByteArray> &senderKeyIds, const QList<QString> &senderJids = {});
 
